@@ -27,6 +27,8 @@ for _k in range(1, 20):
     HARMLESS_CHECKS["R2_C%02d_refactor" % _k] = sorted({"C%02d" % _k, "C19"})
     # round 3: CORRECT performance optimisations (exact complete-key caches, hoisting, preallocation, exact early exits)
     HARMLESS_CHECKS["R3_C%02d_optimisation" % _k] = sorted({"C%02d" % _k, "C19"})
+    # round 4: structural refactorings over several modules (import style, helpers renamed / moved / split, decorators, type hints)
+    HARMLESS_CHECKS["R4_C%02d_structural" % _k] = sorted({"C%02d" % _k, "C19"})
 
 
 def _run(patch, props):
@@ -46,7 +48,9 @@ def main(argv):
     tasks = []
     for d in sorted(glob.glob(os.path.join(VERIF_ROOT, "seeded", "*"))):
         meta = json.load(open(os.path.join(d, "meta.json")))
-        tasks.append(("seeded", os.path.basename(d), os.path.join(d, "patch.diff"), [meta["property"]], 1))
+        # (a seed the machinery does NOT report is kept with its actual outcome -- `expected_exit` 3 / 2 -- so that the
+        # accounting in DESIGN.md stays checkable; it never expects 0)
+        tasks.append(("seeded", os.path.basename(d), os.path.join(d, "patch.diff"), [meta["property"]], int(meta.get("expected_exit", 1))))
     for pth in sorted(glob.glob(os.path.join(VERIF_ROOT, "mutants", "harmless", "*.diff"))):
         name = os.path.basename(pth)[:-5]
         tasks.append(("harmless", name, pth, HARMLESS_CHECKS.get(name, ["C19"]), 0))
